@@ -74,3 +74,30 @@ for cfg in CFGS:
         parts = l.split('|')
         if len(parts) >= 3 and parts[1].strip() == '0':
             print('%s:%s: %s' % (cur.replace('/repo/', ''), parts[0].strip(), '|'.join(parts[2:]).rstrip()[:140]))
+
+# ---- region-level report (uncovered regions inside covered lines) ----
+import json as _json
+for cfg in CFGS:
+    tdir = os.path.join(VERIF, 'target', 'cov-' + cfg)
+    pd = os.path.join(work, cfg + '.profdata')
+    if not os.path.exists(pd):
+        continue
+    exe = [e for e in glob.glob(os.path.join(tdir, 'debug', 'deps', 'derive_where-*')) if os.access(e, os.X_OK) and not e.endswith('.d')]
+    exe = max(exe, key=os.path.getmtime)
+    js = subprocess.run([tools + '/llvm-cov', 'export', exe, '-instr-profile=' + pd, '--ignore-filename-regex',
+                         r'(\.cargo|rustc|/test/|verif_hook)'], capture_output=True, text=True).stdout
+    data = _json.loads(js)
+    print('== uncovered regions', cfg)
+    for f in data['data'][0]['files']:
+        src = open(f['filename']).read().split('\n')
+        for fn in []:
+            pass
+    for fn in data['data'][0]['functions']:
+        for r in fn['regions']:
+            l1, c1, l2, c2, cnt, fid, efid, kind = r
+            if cnt == 0 and kind == 0:
+                fname = fn['filenames'][fid]
+                if '/test/' in fname or 'verif_hook' in fname or '.cargo' in fname or '/rustc/' in fname:
+                    continue
+                line = open(fname).read().split('\n')[l1 - 1]
+                print('%s:%d:%d-%d:%d  %s' % (fname.replace('/repo/', ''), l1, c1, l2, c2, line.strip()[:110]))
